@@ -9,7 +9,8 @@
        [add |-> catalogue indices of S, roots |-> indices of R, start |-> index,
         pred |-> what the A layer says about the result of the walk AS CODED (DfsCoded of
                  WalkDfs.tla): {} or the violated clauses - a prediction, never a verdict;
-        old  |-> the same for the walk as coded before the fix d112422 (DfsPreFix)]
+        old  |-> the same for the walk as coded before the fix d112422 (DfsPreFix)
+        old2 |-> the same for the walk as coded before the fix 59a173b (DfsPreFix2)]
    The harness builds the real graph, runs WalkChains / WalkChainsAsync and records
    observations that Trace_Walk.tla judges.
 
@@ -60,8 +61,13 @@ Pred(c) ==
   IN WalkReasons2(E, st, SeqOfSet(DfsCoded(E, st)), perm, req)
      \cup (IF req \subseteq perm THEN {} ELSE {"required-not-permitted"})
 
+OldPred2(c) ==
+  LET E  == EdgesOf(c.add, c.roots)
+      st == StartRec(c.start, c.add, c.roots)
+  IN WalkReasons(E, st, SeqOfSet(DfsPreFix2(E, st)))
+
 Export(c) == [add |-> SeqOfSet(c.add), roots |-> SeqOfSet(c.roots), start |-> c.start,
-              pred |-> SeqOfSet(Pred(c)), old |-> SeqOfSet(OldPred(c))]
+              pred |-> SeqOfSet(Pred(c)), old |-> SeqOfSet(OldPred(c)), old2 |-> SeqOfSet(OldPred2(c))]
 
 CaseSeq == SeqOfSet(AllCases)
 
